@@ -465,6 +465,28 @@ func c16GenClass(rng *rand.Rand, opts, depth int) c16Class {
 			rng.Shuffle(len(c.Items), func(i, j int) { c.Items[i], c.Items[j] = c.Items[j], c.Items[i] })
 		}
 	}
+	if rng.Intn(10) == 0 {
+		// a category together with its own negation: the base collapses to "anything" while it is parsed, and
+		// what remains of the class is its subtraction (with case partners under IgnoreCase)
+		var a c16Item
+		if opts&c16E == 0 && rng.Intn(3) == 0 {
+			a = c16Item{K: "p", Name: c16Props[rng.Intn(len(c16Props))]}
+		} else {
+			a = c16Item{K: "sh", Name: []string{"d", "w", "s"}[rng.Intn(3)]}
+		}
+		b := a
+		b.Neg = true
+		c.Items = append(c.Items, a, b)
+		rng.Shuffle(len(c.Items), func(i, j int) { c.Items[i], c.Items[j] = c.Items[j], c.Items[i] })
+		if depth < 3 && rng.Intn(3) != 0 {
+			s := c16Class{}
+			for k := 1 + rng.Intn(3); k > 0; k-- {
+				s.Items = append(s.Items, c16GenItem(rng, opts))
+			}
+			c.Sub = &s
+			return c
+		}
+	}
 	if depth < 3 && rng.Intn(3) == 0 {
 		s := c16GenClass(rng, opts, depth+1)
 		c.Sub = &s
@@ -1195,7 +1217,7 @@ func init() {
 		}
 		core.RunLeg(c, core.Leg[c16Case]{
 			Name: "K", Kind: "correspondence+oracle",
-			Rule: "random class expressions: 1-4 (1 in 6: 5-12) items among single runes, ranges, \\d\\w\\s\\D\\W\\S, \\p{..}/\\P{..} (44 names; not under ECMAScript), POSIX names (RE2 only), negated 1 in 4, nested subtraction 1 in 3 per level (depth ≤ 3), 1 in 12 an 'everything but a gap' pair of ranges; options drawn from {default×2, IgnoreCase, ECMAScript, ECMAScript+IgnoreCase, RE2, RE2+IgnoreCase} (IgnoreCase: ASCII range endpoints; rune domain = ASCII ∪ plain upper/lower pairs ∪ caseless runes), ASCII bitmap disabled 1 in 3. Domain per class: U+0000-024F, every endpoint ±1 (AST and compiled set), 130 special runes, 400 random; every 400th (thorough: 150th) class all 1 114 112 code points. Non-trivial = more than one item, negated, or has a subtraction; distinct by (options, bitmap, class text). Oracle: CharIn, charInSlow, MatchRunes of ^[…]$, x*[…], ^[…]+$ (doubled rune) per rune, and bulk ^[…]+$ over all members / unanchored […] over all non-members, against set algebra recomputed from the AST (package unicode tables, stdlib regexp for POSIX names and RE2 shorthands; case equivalence = SimpleFold orbit for code-point items). Correspondence: Lean memAlg/charInSlow/charIn∘prepare on the dumped CharSet vs Go CharIn (sample: ASCII, endpoints ±2, special, 60 random); Lean build(items) vs parsed structure per nesting level (no IgnoreCase); Lean buildItems→addLowercase(lcTable from the source, ToLower rows)→Copy→addCaseEquivalences vs the IgnoreCase parse (classes whose ranges cover at most 3000 runes)",
+			Rule: "random class expressions: 1-4 (1 in 6: 5-12) items among single runes, ranges, \\d\\w\\s\\D\\W\\S, \\p{..}/\\P{..} (44 names; not under ECMAScript), POSIX names (RE2 only), negated 1 in 4, nested subtraction 1 in 3 per level (depth ≤ 3), 1 in 12 an 'everything but a gap' pair of ranges, 1 in 10 a category together with its negation (the base collapses to 'anything') usually with a subtraction; options drawn from {default×2, IgnoreCase, ECMAScript, ECMAScript+IgnoreCase, RE2, RE2+IgnoreCase} (IgnoreCase: ASCII range endpoints; rune domain = ASCII ∪ plain upper/lower pairs ∪ caseless runes), ASCII bitmap disabled 1 in 3. Domain per class: U+0000-024F, every endpoint ±1 (AST and compiled set), 130 special runes, 400 random; every 400th (thorough: 150th) class all 1 114 112 code points. Non-trivial = more than one item, negated, or has a subtraction; distinct by (options, bitmap, class text). Oracle: CharIn, charInSlow, MatchRunes of ^[…]$, x*[…], ^[…]+$ (doubled rune) per rune, and bulk ^[…]+$ over all members / unanchored […] over all non-members, against set algebra recomputed from the AST (package unicode tables, stdlib regexp for POSIX names and RE2 shorthands; case equivalence = SimpleFold orbit for code-point items). Correspondence: Lean memAlg/charInSlow/charIn∘prepare on the dumped CharSet vs Go CharIn (sample: ASCII, endpoints ±2, special, 60 random); Lean build(items) vs parsed structure per nesting level (no IgnoreCase); Lean buildItems→addLowercase(lcTable from the source, ToLower rows)→Copy→addCaseEquivalences vs the IgnoreCase parse (classes whose ranges cover at most 3000 runes)",
 			Corpus: corpus, N: c.N(1500, 30000), Gen: c16Gen(c), Check: c16Check, Batch: 250,
 		})
 	})
